@@ -213,6 +213,10 @@ impl MessageReceiver {
   }
 
   pub fn handle_received_packet(&mut self, msg_bytes: &Bytes) {
+    #[cfg(feature = "rustdds_verif")]
+    if crate::verif::net::rx_blocked(self.own_guid_prefix.as_ref(), msg_bytes) {
+      return;
+    }
     // Check for RTPS ping message. At least RTI implementation sends these.
     // What should we do with them? The spec does not say.
     if msg_bytes.len() < RTPS_MESSAGE_HEADER_SIZE {
